@@ -840,14 +840,35 @@ func report(t *testing.T, rep *ev.Report, ph phase, name string, forced []string
 		return
 	}
 	letters := append(append([]string{}, forced...), f.Trace...)
-	if k, ok := last.at[f.Sig]; ok && k < len(letters) {
-		// the history up to the violating step is the witness; make sure it is one
-		short, out := runHistory(t, ph.cfg, letters[:k], 0, nil, false)
+	// shrink the witness: cut after the violating step, then drop letters one at a time while the same signature remains
+	try := func(ls []string) (r result, ok bool) {
+		defer func() {
+			if x := recover(); x != nil {
+				if _, he := x.(mc.HarnessError); !he {
+					panic(x)
+				}
+				ok = false // a letter is not enabled any more
+			}
+		}()
+		r, out := runHistory(t, ph.cfg, ls, 0, nil, false)
 		for _, sg := range out.Sigs {
 			if sg == f.Sig {
-				letters, last = letters[:k], short
-				break
+				return r, true
 			}
+		}
+		return r, false
+	}
+	if k, ok := last.at[f.Sig]; ok && k < len(letters) {
+		if r, ok := try(letters[:k]); ok {
+			letters, last = letters[:k], r
+		}
+	}
+	for i := 0; i < len(letters); {
+		cand := append(append([]string{}, letters[:i]...), letters[i+1:]...)
+		if r, ok := try(cand); ok {
+			letters, last = cand, r
+		} else {
+			i++
 		}
 	}
 	parts := strings.SplitN(f.Sig, "|", 3)
